@@ -110,16 +110,18 @@ static void ed_mul_naf_imp(ed_t r, const ed_t p, const bn_t k) {
 #if ED_MUL == LWREG || !defined(STRIP)
 
 static void ed_mul_reg_imp(ed_t r, const ed_t p, const bn_t k) {
-	bn_t _k;
-	int i, j, n;
-	int8_t s, reg[RLC_CEIL(RLC_FP_BITS + 1, RLC_WIDTH - 1)];
+	bn_t _k, o;
+	int i, j, n, even;
+	int8_t s, reg[1 + RLC_CEIL(RLC_FP_BITS + 1, RLC_WIDTH - 1)];
 	ed_t t[1 << (RLC_WIDTH - 2)], u, v;
 	size_t l;
 
 	bn_null(_k);
+	bn_null(o);
 
 	RLC_TRY {
 		bn_new(_k);
+		bn_new(o);
 		ed_new(u);
 		ed_new(v);
 		/* Prepare the precomputation table. */
@@ -130,9 +132,13 @@ static void ed_mul_reg_imp(ed_t r, const ed_t p, const bn_t k) {
 		/* Compute the precomputation table. */
 		ed_tab(t, p, RLC_WIDTH);
 
-		/* Make a copy of the scalar for processing. */
+		/* Make a copy of the scalar for processing, reduced modulo the order
+		 * because the recoding only covers RLC_FP_BITS bits. */
+		ed_curve_get_ord(o);
 		bn_abs(_k, k);
-		_k->dp[0] |= bn_is_even(_k);
+		bn_mod(_k, _k, o);
+		even = bn_is_even(_k);
+		_k->dp[0] |= even;
 
 		/* Compute the w-NAF representation of k. */
 		l = RLC_CEIL(RLC_FP_BITS + 1, RLC_WIDTH - 1) + 1;
@@ -166,11 +172,11 @@ static void ed_mul_reg_imp(ed_t r, const ed_t p, const bn_t k) {
 
 		/* t[0] has an unmodified copy of p. */
 		ed_sub(u, r, t[0]);
-		fp_copy_sec(r->x, u->x, bn_is_even(k));
-		fp_copy_sec(r->y, u->y, bn_is_even(k));
-		fp_copy_sec(r->z, u->z, bn_is_even(k));
-#if ED_Afp == EXTND
-		fp_copy_sec(r->t, u->t, bn_is_even(k));
+		fp_copy_sec(r->x, u->x, even);
+		fp_copy_sec(r->y, u->y, even);
+		fp_copy_sec(r->z, u->z, even);
+#if ED_ADD == EXTND
+		fp_copy_sec(r->t, u->t, even);
 #endif
 		/* Convert r to affine coordinates. */
 		ed_norm(r, r);
@@ -189,6 +195,7 @@ static void ed_mul_reg_imp(ed_t r, const ed_t p, const bn_t k) {
 			ed_free(t[i]);
 		}
 		bn_free(_k);
+		bn_free(o);
 	}
 }
 
